@@ -30,14 +30,15 @@ theorem worker_alive_while_handle_alive {cap hh} (s : St μ) (h : Reachable cap 
   worker_alive s h hne
 
 /-- Eventually: the worker is never stuck — unless it is inside the wrapped sink, or waiting on an
-empty queue, or has exited and released, one of its steps is enabled; and any run of worker steps
+empty queue, or has exited and released, a system step (the worker's, or one of the two steps of
+the `stop()` running in the last handle's destructor) is enabled; and any run of system steps
 is finite (bounded by `measure`), so under any schedule that does not starve the worker and in
 which every wrapped-sink call returns, every queued metric is handed over. -/
 theorem worker_makes_progress {cap hh} (s : St μ) (h : Reachable cap hh s) :
     ((∃ m, s.phase = .running m) ∨ (s.phase = .recving ∧ s.chan = []) ∨
      (s.phase = .exited ∧ (s.handles ≠ [] ∨ s.released = true)) ∨
-     ∃ l, isWorker l = true ∧ (step s l).isSome = true) ∧
-    ∀ ls : List (Label μ), (∀ l ∈ ls, isWorker l = true) → (runLabels s ls).isSome = true → ls.length ≤ measure s :=
+     ∃ l, isSystem l = true ∧ (step s l).isSome = true) ∧
+    ∀ ls : List (Label μ), (∀ l ∈ ls, isSystem l = true) → (runLabels s ls).isSome = true → ls.length ≤ measure s :=
   ⟨worker_not_stuck s h, fun ls hw hr => worker_runs_bounded s ls hw hr⟩
 
 /-- the deterministic schedule the correspondence runs the model in is a run of this system -/
